@@ -410,6 +410,30 @@ func withEmpties(g geom.Geometry) []geom.Geometry {
 		out = append(out, geom.NewGeometryCollection([]geom.Geometry{inner1}).AsGeometry(), geom.NewGeometryCollection([]geom.Geometry{inner2}).AsGeometry(),
 			geom.NewGeometryCollection([]geom.Geometry{geom.NewGeometryCollection([]geom.Geometry{inner2}).AsGeometry(), e}).AsGeometry())
 	}
+	// an empty member inside a Multi* that is itself a member of the collection (first and last position)
+	if g.IsGeometryCollection() {
+		ms := oracle.Members(g)
+		for i, m := range ms {
+			var variants []geom.Geometry
+			switch m.Type() {
+			case geom.TypeMultiPoint:
+				mp := m.MustAsMultiPoint()
+				ps := mp.Dump()
+				variants = append(variants, geom.NewMultiPoint(append([]geom.Point{{}}, ps...)).AsGeometry(), geom.NewMultiPoint(append(append([]geom.Point{}, ps...), geom.Point{})).AsGeometry())
+			case geom.TypeMultiLineString:
+				ls := m.MustAsMultiLineString().Dump()
+				variants = append(variants, geom.NewMultiLineString(append([]geom.LineString{{}}, ls...)).AsGeometry(), geom.NewMultiLineString(append(append([]geom.LineString{}, ls...), geom.LineString{})).AsGeometry())
+			case geom.TypeMultiPolygon:
+				pg := m.MustAsMultiPolygon().Dump()
+				variants = append(variants, geom.NewMultiPolygon(append([]geom.Polygon{{}}, pg...)).AsGeometry(), geom.NewMultiPolygon(append(append([]geom.Polygon{}, pg...), geom.Polygon{})).AsGeometry())
+			}
+			for _, v := range variants {
+				vs := append([]geom.Geometry{}, ms...)
+				vs[i] = v
+				out = append(out, geom.NewGeometryCollection(vs).AsGeometry())
+			}
+		}
+	}
 	// same-typed Multi* with an empty member of its member type at every position
 	switch g.Type() {
 	case geom.TypeMultiPoint:
@@ -727,7 +751,12 @@ func c20Main(r *engine.Run) {
 	baseGeoms = append(baseGeoms,
 		mls(L(P(10, 10), P(11, 10)), L(P(12, 10), P(13, 11)), L(P(14, 10), P(15, 10)), L(P(10, 12), P(11, 13)), L(P(12, 12), P(13, 12))),
 		mp(P(10, 10), P(11, 11), P(12, 10), P(13, 13), P(14, 10)),
-		mls(L(P(0, 0), P(2, 0)), L(P(2, 0), P(0, 2)), L(P(0, 2), P(0, 0))))
+		mls(L(P(0, 0), P(2, 0)), L(P(2, 0), P(0, 2)), L(P(0, 2), P(0, 0))),
+		// collections whose members are Multi* of one dimension plus a sibling elsewhere (weights per member)
+		geom.NewGeometryCollection([]geom.Geometry{mp(P(0, 0)), id.Point(P(4, 0)).AsGeometry()}).AsGeometry(),
+		geom.NewGeometryCollection([]geom.Geometry{mp(P(0, 0), P(0, 2)), mp(P(6, 0)), id.Point(P(3, 3)).AsGeometry()}).AsGeometry(),
+		geom.NewGeometryCollection([]geom.Geometry{mls(L(P(0, 0), P(2, 0))), id.Line(L(P(5, 5), P(5, 9))).AsGeometry()}).AsGeometry(),
+		geom.NewGeometryCollection([]geom.Geometry{geom.NewMultiPolygon([]geom.Polygon{id.Polygon(sqr(0, 0, 1, 1))}).AsGeometry(), id.Polygon(sqr(5, 5, 8, 8)).AsGeometry()}).AsGeometry())
 	var bases []Operand
 	for _, g := range baseGeoms {
 		bases = append(bases, mkOp(g, "base"))
